@@ -20,6 +20,10 @@ DIAGNOSTICS = {"tracing", "_tracing", "intersection_data_points"}
 N = 3
 
 
+def _no_interrupt():
+    return None
+
+
 def make_world():
     """Fresh objects. Returns dict with cubes, funcs (by cube kind), args (caller-owned arrays), dims.
 
@@ -83,7 +87,12 @@ def make_world():
         # dimensionless cubes: fill() sees the function object's own arrays whole, not per-cell copies
         "cZ": ccube([]),
         "xZ": xcube([]),
+        # the same dimensions as cA / xA with a (never raising) interrupt callback installed: an option that is tested alone elsewhere
+        "cK": ccube(dims_lists["cA"], interacting_shape=shape),
+        "xK": xcube(dims_lists["xA"], interacting_shape=shape),
     }
+    cubes["cK"].check_interrupt = _no_interrupt
+    cubes["xK"].check_interrupt = _no_interrupt
     ff = {
         "count": F.ffunc_count(),
         "count_wA": F.ffunc_count(args["wA"], ignore_missing=True),
@@ -184,8 +193,10 @@ def events(max_sel, func_subset=None):
     """All events: ('calc', cube, (func names...)) and ('short', cube, name)."""
     w = make_world()
     out = []
-    for cube in ("cA", "cB", "cC", "xA", "xB", "xC"):
+    for cube in ("cA", "cB", "cC", "xA", "xB", "xC", "cK", "xK"):
         if cube in ("cC", "xC") and max_sel > 1:
+            continue
+        if cube in ("cK", "xK") and max_sel > 2:
             continue  # the same-shape twins only join the single-function alphabet (depth 2/3 histories)
         names = sorted(w["ff" if cube[0] == "c" else "xf"])
         if func_subset is not None:
@@ -319,6 +330,51 @@ def args_snapshot(world):
     for k, t in world["tuples"].items():
         snap["tuple:" + k] = tuple(id(x) for x in t)
     return snap
+
+
+def _poke(world):
+    """The caller edits its own arrays in place between two calls (imputing one missing value, blanking another row): the NaN moves."""
+    a = world["args"]
+    a["wA"][2], a["wA"][0] = 2.0, float("nan")
+    a["fB"][1], a["fB"][2] = 3.0, float("nan")
+    a["f2B"][0, 1], a["f2B"][1, 0] = 5.0, float("nan")
+
+
+def poke_checks():
+    """Identity is not equality: the SAME array object, edited in place by its owner, handed to the same call again must be read again - the result
+    must equal that of a fresh world in which the edit was made before anything ran."""
+    from catii import ffuncs as F
+    from catii import xfuncs as X
+
+    builders = {
+        "x": [("sum", lambda a: X.xfunc_sum(a["fB"])), ("mean", lambda a: X.xfunc_mean(a["fB"], None, True)), ("valid_count", lambda a: X.xfunc_valid_count(a["f2B"])),
+              ("count_w", lambda a: X.xfunc_count(a["wA"], ignore_missing=True)), ("stddev", lambda a: X.xfunc_stddev(a["f2B"], None, True)),
+              ("quantile", lambda a: X.xfunc_quantile(a["fB"], 0.5, None, True)), ("max", lambda a: X.xfunc_max(a["fB"], True)), ("sum_w", lambda a: X.xfunc_sum(a["fC"], a["wA"], True))],
+        "c": [("sum", lambda a: F.ffunc_sum(a["fB"])), ("mean", lambda a: F.ffunc_mean(a["f2B"], None, True)), ("valid_count", lambda a: F.ffunc_valid_count(a["fB"])),
+              ("count_w", lambda a: F.ffunc_count(a["wA"], ignore_missing=True)), ("sum_w", lambda a: F.ffunc_sum(a["fC"], a["wA"], True))],
+    }
+    viol = []
+    n = 0
+    for cube in ("xA", "xB", "cA", "cB"):
+        calls_ = [("short:" + nm, (lambda w, nm=nm: shortcut_call(w, cube, nm))) for nm in SHORTCUTS[cube[0]]]
+        calls_ += [("calc:" + nm, (lambda w, mk=mk: w["cubes"][cube].calculate([mk(w["args"])])[0])) for nm, mk in builders[cube[0]]]
+        for label, call in calls_:
+            n += 1
+            try:
+                w = make_world()
+                call(w)
+                _poke(w)
+                got = harness.freeze([call(w)])
+                w2 = make_world()
+                _poke(w2)
+                exp = harness.freeze([call(w2)])
+            except Exception as e:  # noqa
+                viol.append({"site": "calls:poke-raised", "history": [["poke", cube, label]], "at": 0, "detail": repr(e)})
+                continue
+            if got != exp:
+                viol.append({"site": "calls:result-depends-on-history", "history": [["poke", cube, label]], "at": 1,
+                             "detail": "%s on %s, the caller edits its arrays in place, the same call again: %r; a fresh world with the same edit gives %r" % (label, cube, harness.thaw_repr(got), harness.thaw_repr(exp))})
+    return viol, n
 
 
 def run_history(hist, check_all=True):
